@@ -22,6 +22,8 @@ class ExecBase:
         self.models_used = set()
         self.stubs_used = set()
         self.tcache = {}
+        self.cur_state = None
+        self.blobs = {}            # z3 ast ids of byte terms that are slices of a wider term
 
     # ---------- types ----------
     def T(self, tid):
@@ -190,6 +192,10 @@ class ExecBase:
                     return False
             return r
         if c == 'array':
+            if t['len'] > 1 and self.T(t['elem']).get('bits') == 8:
+                r = self.bytes_eq(a, b)
+                if r is not None:
+                    return r
             r = True
             for i in range(t['len']):
                 r = and_(r, self.eq(st, a[i], b[i], t['elem']))
@@ -222,6 +228,19 @@ class ExecBase:
             return a == b
         raise Unsupported('eq on type ' + t['s'])
 
+    def bytes_eq(self, la, lb):
+        """equality of two equally long byte sequences as one wide comparison when
+        slices of wider terms are involved (keeps hash equalities whole); else None"""
+        if len(la) != len(lb):
+            return False
+        blobs = self.blobs
+        if not any((is_sym(x) and x.get_id() in blobs) for x in la) and \
+                not any((is_sym(x) and x.get_id() in blobs) for x in lb):
+            return None
+        A = z3.simplify(z3.Concat(*[bv(x, 8) for x in la])) if len(la) > 1 else bv(la[0], 8)
+        B = z3.simplify(z3.Concat(*[bv(x, 8) for x in lb])) if len(lb) > 1 else bv(lb[0], 8)
+        return simp_bool(A == B)
+
     def str_eq(self, a, b):
         if isinstance(a, bytes) and isinstance(b, bytes):
             return a == b
@@ -234,6 +253,10 @@ class ExecBase:
             lb = b.elems if isinstance(b, SymStr) else tuple(b)
             if len(la) != len(lb):
                 return False
+            if len(la) > 1:
+                r = self.bytes_eq(la, lb)
+                if r is not None:
+                    return r
             r = True
             for x, y in zip(la, lb):
                 if is_sym(x) or is_sym(y):
@@ -256,9 +279,15 @@ class ExecBase:
         return self.eq(st, a.v, b.v, a.t)
 
     # ---------- solver / choose ----------
-    def check(self, extra=None):
+    def check(self, extra=None, st=None):
+        """incremental check first (short cap); if undecided and the path condition is
+        known (st), a fresh non-incremental solver with full preprocessing decides."""
         t0 = time.time()
         self.stats['queries'] += 1
+        fast_ms = int(self.opts.get('fast_timeout_ms', 3000))
+        full_ms = int(self.opts.get('query_timeout_ms', 20000))
+        st = st if st is not None else self.cur_state
+        self.solver.set('timeout', fast_ms if st is not None else full_ms)
         if extra is not None:
             self.solver.push()
             self.solver.add(extra)
@@ -268,7 +297,28 @@ class ExecBase:
             m = self.solver.model()
         if extra is not None:
             self.solver.pop()
-        self.stats['solver_s'] += time.time() - t0
+        if r == z3.unknown and st is not None:
+            self.stats['fresh_solver'] = self.stats.get('fresh_solver', 0) + 1
+            s2 = z3.Solver()
+            s2.set('timeout', full_ms)
+            for c in st.pc:
+                s2.add(c)
+            if extra is not None:
+                s2.add(extra)
+            r = s2.check()
+            if r == z3.sat:
+                m = s2.model()
+        dt = time.time() - t0
+        self.stats['solver_s'] += dt
+        import os
+        if dt > 5 and os.environ.get('VERIF_DUMP_SLOW') and st is not None:
+            s3 = z3.Solver()
+            for c in st.pc:
+                s3.add(c)
+            if extra is not None:
+                s3.add(extra)
+            self.stats['dumped'] = self.stats.get('dumped', 0) + 1
+            open(os.path.join(os.environ['VERIF_DUMP_SLOW'], 'slow_%d_%s_%.0fs.smt2' % (self.stats['dumped'], r, dt)), 'w').write(s3.to_smt2())
         if r == z3.sat:
             self.stats['sat'] += 1
             return 'sat', m
